@@ -589,3 +589,43 @@ impl kani::Arbitrary for Direction {
         DIRS[k as usize]
     }
 }
+
+// -------------------------------------------------------------------- setup (C09)
+/// k-th home square of a side in placement order: Gold a2..h2 then a1..h1, Silver a8..h8 then a7..h7
+pub fn home_square(gold: bool, k: u8) -> u8 {
+    let f = k % 8;
+    let r = if gold {
+        if k < 8 { 2 } else { 1 }
+    } else if k < 8 {
+        8
+    } else {
+        7
+    };
+    sq_index(f, r)
+}
+/// the squares occupied after n placements (n in 0..=32), as (all, gold) sets
+pub fn placed_sets(n: u8) -> (u64, u64) {
+    let mut all = 0u64;
+    let mut gold = 0u64;
+    macro_rules! k { ($($k:literal)*) => { $(
+        if $k < n { all |= 1u64 << home_square(true, $k); gold |= 1u64 << home_square(true, $k); }
+        if n > 16 && $k < n - 16 { all |= 1u64 << home_square(false, $k); }
+    )* } }
+    k!(0 1 2 3 4 5 6 7 8 9 10 11 12 13 14 15);
+    (all, gold)
+}
+/// setup-phase invariant after n placements
+pub fn wf_place(pb: &PieceBoardState, n: u8) -> bool {
+    let (all, gold) = placed_sets(n);
+    n <= 32 && board_wf(pb) && pb.all_pieces == all && pb.p1_pieces == gold && material_ok(pb)
+}
+pub fn place_mover(n: u8) -> bool {
+    n < 16
+}
+pub fn place_target(n: u8) -> u8 {
+    if n < 16 {
+        home_square(true, n)
+    } else {
+        home_square(false, n - 16)
+    }
+}
